@@ -9,7 +9,7 @@ from props_common import HARNESS_TB, EXTRACT_TB
 _STATE = {"coq": None, "names": None}
 _DRV_ARGS = []
 
-KNOWN = ("ANotify", "AStart", "AWritePid", "ASpawnWait", "ASelect")
+KNOWN = ("ANotify", "AStart", "AWritePid", "ASpawnWait", "ASelect", "ANotifyUnbuffered")
 
 
 def _load_actions():
@@ -61,6 +61,12 @@ def c20_static(tier):
                                                                                    "glbfacts": st.get("raw", "")[-1500:]}))
         return 1, 0, problems, cov
     nbs, wf = m.group(1) == "true", m.group(2) == "true"
+    hook = re.search(r"hook launch\.afterStart: (\w+)", st.get("raw", ""))
+    cov["hook_launch_afterStart"] = hook.group(1) if hook else "?"
+    if not hook or hook.group(1) != "present":
+        problems.append(("tie", "hook missing: verifPause(\"launch.afterStart\") is no longer called right after cmd.Start() in "
+                         "daemon.launch - the forced schedule (daemon reaches Done() while the launcher is behind Start) is not achieved",
+                         {"broken": "verif hook launch.afterStart", "glbfacts": st.get("raw", "")[-800:]}))
     closed = rc == 0 and "Closed under the global context" in out
     cov.update({"notify_before_start": nbs, "well_formed": wf,
                 "handshake_instance_assumptions": "Closed under the global context" if closed else out.strip()[-300:]})
@@ -69,7 +75,8 @@ def c20_static(tier):
         if not nbs:
             why.append("cmd.Start() is not preceded by signal.Notify (a daemon calling Done() early kills the launcher)")
         if not wf:
-            why.append("the action list is not one of the well-formed orders (unrecognised or missing action)")
+            why.append("the action list is not one of the well-formed orders (unrecognised or missing action, unbuffered Notify "
+                       "channel, select case other than the Notify / waiter channels, Done() signal not listened for)")
         problems.append(("tie", "the launcher's action order extracted from daemon/daemon.go func launch no longer satisfies the "
                          "discipline of C20_handshake: %s; actions = %s" % ("; ".join(why), st["coq"]),
                          {"broken": broken, "actions": st["coq"], "notify_before_start": nbs, "well_formed": wf,
@@ -89,7 +96,7 @@ def c20_casesv(lines):
     rows = []
     for l in lines:
         f = l.split()
-        b = ["true" if x == "1" else "false" for x in f[6:12]]
+        b = ["true" if x == "1" else "false" for x in f[6:14]]
         rows.append("verdict_ok (check_case acts %s%%N %s%%N (mkObs %s %s))" % (f[1], f[2], CLS.get(f[5], "OOther"), " ".join(b)))
     return ("From Coq Require Import List NArith String.\nImport ListNotations.\nFrom Glb Require Import Model.Daemon Check.C20.\n"
             "Open Scope string_scope.\nDefinition acts : list action := " + st["coq"] + ".\n"
@@ -99,6 +106,12 @@ def c20_casesv(lines):
 def c20_sig(line):
     if "signal: interrupt" in line or " run " in line:
         return "launcher-killed-by-early-done"
+    if "done_entered_at_return=0" in line and 'err=""' in line:
+        return "launch-returns-before-done"
+    if "right_handler_and_distinct_pid=0" in line and 'err=""' in line:
+        return "wrong-handler"
+    if "did not return" in line:
+        return "launch-never-returns"
     if "survived_300ms_after_return=0" in line or re.search(r"^E( \S+){10} 0 ", line):
         return "daemon-dies-after-return"
     if " stderr " in line or "daemon_stderr=b" in line:
@@ -117,12 +130,14 @@ CFG = dict(
     sig=c20_sig,
     race=False,
     harness_timeout={"quick": 180, "thorough": 1800},
-    coq_sample={"quick": 60, "thorough": 200},
+    coq_sample={"quick": 100, "thorough": 200},
     rule=("real processes: daemon delay before Done() {0, 50, 300 ms} x launcher pause right after cmd.Start() {0, 200 ms} "
-          "(hook VERIF_PAUSE_LAUNCH_AFTERSTART) x {1, 4} concurrent Launch calls with a silent daemon, plus the daemon handler "
+          "(hook VERIF_PAUSE_LAUNCH_AFTERSTART) x {1, 4} concurrent Launch calls with a silent daemon, a slow daemon (1 s before "
+          "Done(); thorough also 4.5 s), 4 bursts of 8 overlapping launches, all under two handler names used alternately, plus the daemon handler "
           "variants 'stderr line before Done()', 'stderr line 100 ms after Done()', 'both' on the two extreme timings x {1, 4} "
           "(thorough: 6 delays x 4 pauses x {1,4,8} x all 4 variants, 5 rounds); one case = one Launch call with what was observed "
-          "when it returned and again ~300 ms later (daemon still running, past its late stderr write); non-trivial = distinct "
+          "when it returned (error, pid, marker, pre-Done() marker, handler name in the marker, /proc) and again ~300 ms later (daemon still "
+          "running, past its late stderr write); non-trivial = distinct "
           "(delay, pause, concurrency, stderr variant) scenarios"),
     trusted_base=[HARNESS_TB, EXTRACT_TB,
                   "gen/glbfacts launch: the syntactic reading of func launch as an action list (unrecognised statements become "
@@ -134,6 +149,12 @@ CFG = dict(
                  "the registered handler reaches Done() and keeps running (the property's premise); a daemon that exits or crashes "
                  "before Done() is outside the statement",
                  "cmd.Start() succeeds and the pid fits the 4-byte stdout protocol",
+                 "'Launch returns only after Done()' is observed as: the file the daemon writes immediately before calling Done() exists "
+                 "when Launch returns, for daemon delays up to 1 s (quick) / 4.5 s (thorough). A launcher that gives up waiting after a "
+                 "longer grace period is caught only statically: any select case other than the Notify channel and the waiter's channel "
+                 "makes the extracted action list ill-formed (VIOLATION ... no-failing-input-found)",
+                 "the forced schedule depends on the verif hook: its presence is checked in the source (glbfacts) and by timing "
+                 "(a successful Launch under a 200 ms pause cannot take less than 200 ms)",
                  "GO SIDE ONLY: the daemon's standard streams are outside Model/Daemon.v. That a daemon which writes to its stderr "
                  "before Done() does not make Launch fail, and that its first stderr write after Launch returned does not kill it "
                  "(no broken pipe tied to the caller), is part of 'the daemon keeps running after Launch returns' that is checked by "
@@ -148,11 +169,18 @@ CFG["manifest"] = dict(
           "(action list) that installs the SIGINT handler before starting the daemon: Launch returns (daemon pid, nil), only after "
           "the daemon's marker and Done(); the daemon is alive, the launcher exited normally, the daemon's parent is init. "
           "handshake_refuted_without_discipline and C20_discipline_necessary show the property is false for every other well-formed "
-          "order (the pinned commit's order included). The action list is extracted from daemon/daemon.go on every run and the "
+          "order (the pinned commit's order included); C20_unbuffered_notify_deadlocks shows an unbuffered Notify channel can lose "
+          "the signal so that Launch never returns. Well-formed = buffered Notify, Start, SpawnWait once each before the one Select, "
+          "WritePid once anywhere after Start. The action list is extracted from daemon/daemon.go on every run (incl. the Notify "
+          "channel's capacity and signal set, the signal Done() sends, every case of the final select) and the "
           "discipline is re-checked by vm_compute (the one obligation that depends on the current source). "
           "Tie: the harness binary is caller, launcher and daemon; real Launch calls under daemon delays {0,50,300 ms} x a launcher "
-          "pause right after cmd.Start() {0,200 ms} x {1,4} concurrent calls; error, pid, marker-at-return, /proc liveness and parent, "
-          "launcher gone are judged by the extracted check function and compared with the model's outcome on the forced schedule."),
+          "pause right after cmd.Start() {0,200 ms} x {1,4} concurrent calls, a 1 s daemon (thorough 4.5 s), bursts of 8 overlapping "
+          "launches, two handler names used alternately; error, pid, marker-at-return, pre-Done() marker at return (Launch did not "
+          "return before Done()), handler name run by the returned pid, distinct pids, /proc liveness and parent, launcher gone "
+          "(zombies count) are judged by the extracted check function and compared with the model's outcome on the forced schedule. "
+          "Daemon handlers that write to stderr before and / or 100 ms after Done() must still give (pid, nil) and be running, past "
+          "the late write, ~300 ms after Launch returned (Go side only). The verif hook is asserted (source + timing)."),
     note=("PARTIAL: process and signal semantics are the kernel's and the Go runtime's; Model/Daemon.v is a model of them (SIGINT "
           "without handler kills, orphans are re-parented, signal delivery is asynchronous), exercised but not derived. Trusted: Coq "
           "kernel; the glbfacts reading of func launch; extraction + OCaml glue (cross-checked by vm_compute sample); Go harness and "
